@@ -29,6 +29,9 @@ ASSUMPTIONS = [
     "error precedence: the model follows the code's validation order; ISO 8.14.3.3 fixes no order, theorem C43_rejected only states that the raised error is one whose ISO condition holds",
 ]
 
+# no goal of this check can loop; a generous watchdog keeps a loaded machine from faking timeouts
+IMPL_ENV = {"SV_TIMEOUT_MS": "120000"}
+
 NAMES = ["foo", "+", "-", "|", ",", "[]", "{}", "mod"]
 NAME_W = [25, 14, 14, 16, 7, 5, 5, 14]
 SPECS = ["xfx", "xfy", "yfx", "xf", "yf", "fx", "fy"]
@@ -365,7 +368,11 @@ def gen_history(rng, tier):
         ln = used[-1] if used else None
         for _ in range(rng.choice([0, 1, 1, 2])):
             steps.append(gen_cur(rng, (lp, ls, ln)))
-    steps.extend(reads_for(NAMES))
+    # sentences for the names this history touched plus two others
+    touched = [n for n in NAMES if n in used]
+    others = [n for n in NAMES if n not in used]
+    rng.shuffle(others)
+    steps.extend(reads_for(touched + others[:2]))
     return steps
 
 
@@ -449,6 +456,12 @@ def judge_case(c, impl, mres, flags, stats, findings, verbose=False):
     def report(kind, sig, detail):
         findings.append(core.Finding(kind, sig, detail, case_payload(c, flags)))
 
+    # a timeout / abort that survived the serial re-run is inconclusive, never a finding
+    for l in c["body"]:
+        v = impl.get(core.line_id(l))
+        if v is None or v.startswith("timeout") or v.startswith("abort(") or v.startswith("skipped("):
+            stats["skipped_inconclusive"] += 1
+            return None
     # initial table (names in play) must be the default one
     init = impl_table(impl.get(cid + ".i"))
     exp0 = sorted((p, s, n) for (p, s, n) in DEFAULT_ROWS if n in names)
@@ -579,17 +592,15 @@ DEFAULT_ROWS = [
 
 def measure_flags(cases, impl):
     """which patches does the tree under test contain? (from the witness histories)"""
-    byid = {c["id"]: c for c in cases}
-    bar = atomic = cur = "0"
-    if "w1" in byid:
-        e = impl_binding(impl.get("w1.0"), "E")
-        bar = "0" if e == "'ok'" else "1"
-    if "w2" in byid:
-        t = impl_table(impl.get("w2.0.t")) or []
-        atomic = "0" if any(n == "foo" for (_, _, n) in t) else "1"
-    if "w3" in byid:
-        t = impl_table(impl.get("w3.0"))
-        cur = "1" if t == [(500, "yfx", "+")] else "0"
+    e = impl_binding(impl.get("w1.0"), "E")
+    t2 = impl_table(impl.get("w2.0.t"))
+    t3 = impl_table(impl.get("w3.0"))
+    if e.startswith("?") or t2 is None or t3 is None:
+        raise RuntimeError("C43: witness histories gave no usable answer (w1=%r w2=%r w3=%r)" % (
+            impl.get("w1.0"), impl.get("w2.0.t"), impl.get("w3.0")))
+    bar = "0" if e == "'ok'" else "1"
+    atomic = "0" if any(n == "foo" for (_, _, n) in t2) else "1"
+    cur = "1" if t3 == [(500, "yfx", "+")] else "0"
     return bar + atomic + cur
 
 
@@ -631,12 +642,32 @@ def run(ctx):
     singles = [c for c in cases if c["kind"] != "random"]
     rnd = [c for c in cases if c["kind"] == "random"]
     runs = list(singles) + [bundle("b%d" % i, rnd[i:i + G]) for i in range(0, len(rnd), G)]
-    impl, _ = diff.run_cases(runs)
-    flags = measure_flags(cases, impl)
+    impl, _ = diff.run_cases(runs, impl_env=IMPL_ENV)
+    # a watchdog timeout / harness abort on a loaded machine is not evidence: run those machines
+    # again, one after the other, and judge the second result
+    def inconclusive(r):
+        for l in r["impl"]:
+            v = impl.get(core.line_id(l))
+            if v is None or v.startswith("timeout") or v.startswith("abort(") or v.startswith("skipped("):
+                return True
+        return False
+    again = [r for r in runs if inconclusive(r)]
+    if again:
+        impl2, _ = diff.run_cases(again, impl_env=IMPL_ENV, parallel=False)
+        impl.update(impl2)
+    for _ in range(3):
+        try:
+            flags = measure_flags(cases, impl)
+            break
+        except RuntimeError:
+            w, _ = diff.run_cases([c for c in cases if c["id"] in ("w1", "w2", "w3")], impl_env=IMPL_ENV, parallel=False)
+            impl.update(w)
+    else:
+        flags = measure_flags(cases, impl)
     model = core.run_model([model_line(c, flags) for c in cases])
     for i, c in enumerate(rnd):
         c["fresh"] = (i % G == 0)
-    stats = {"skipped_restore_failed": 0, "calls": 0, "cur_queries": 0, "reads": 0, "reads_skipped_noninv": 0, "reads_ambiguous": 0,
+    stats = {"skipped_inconclusive": 0, "skipped_restore_failed": 0, "calls": 0, "cur_queries": 0, "reads": 0, "reads_skipped_noninv": 0, "reads_ambiguous": 0,
              "iso_outcomes": {}, "deviations": {}, "cur_modes": {}, "read_outcomes": {"term": 0, "syntax_error": 0}}
     findings = []
     agree = 0
@@ -664,7 +695,7 @@ def run(ctx):
     return {
         "evaluations": evals,
         "distinct_nontrivial": len(distinct),
-        "rule": "one case = one history of 6-12 op/3 calls on a fresh machine over names {foo,+,-,'|',',',[],{},mod} (single or in lists of 1-3), priorities {0,1,200,700,1000,1001,1200,1201,-1}+{400,500,999,1100,10^23}, all 7 specifiers, 22% ill-typed calls (unbound, non-integer priority, non-atom/unknown specifier, non-list / partial / improper list, non-atom element); after each call the error formal and two current_op/3 dumps are compared, 0-2 current_op/3 queries in a random instantiation mode follow, and at the end 11 sentence templates per name are read; non-trivial = the visible table changed at least twice and at least one call was rejected; distinct by history text",
+        "rule": "one case = one history of 6-12 op/3 calls on a fresh machine over names {foo,+,-,'|',',',[],{},mod} (single or in lists of 1-3), priorities {0,1,200,700,1000,1001,1200,1201,-1}+{400,500,999,1100,10^23}, all 7 specifiers, 22% ill-typed calls (unbound, non-integer priority, non-atom/unknown specifier, non-list / partial / improper list, non-atom element); after each call the error formal and two current_op/3 dumps are compared, 0-2 current_op/3 queries in a random instantiation mode follow, and at the end 11 sentence templates are read for every name the history touched and two others; non-trivial = the visible table changed at least twice and at least one call was rejected; distinct by history text",
         "samples": samples,
         "traces_validated_against_impl": agree,
         "disagreements_checked": evals - agree,
@@ -675,6 +706,8 @@ def run(ctx):
         "iso_outcomes": stats["iso_outcomes"],
         "deviation_steps": stats["deviations"],
         "histories_skipped_restore_failed": stats["skipped_restore_failed"],
+        "machines_rerun_after_timeout": len(again),
+        "histories_skipped_inconclusive_after_rerun": stats["skipped_inconclusive"],
         "sentences_read": stats["reads"],
         "sentences_skipped_table_outside_invariant": stats["reads_skipped_noninv"],
         "sentences_ambiguous": stats["reads_ambiguous"],
